@@ -9,7 +9,9 @@
    a hit is reported as ` !<tag>` on the output line, minimised here (delta debugging on the op
    script) and turned into a violation with the script as replay.
 
-Known findings (stable keys):  idset32-iterate-top-chunk (F2), relmap32-probe-ge-2^32 (F3).
+Findings F2 and F3 are fixed in /repo (7c7de5b, 9f963df); corpus/C15/f2-*.ops and f3-*.ops stay as
+regression probes: if the old behaviour returns the monitors raise VIOLATION with the stable keys
+idset32-iterate-top-chunk / relmap32-probe-ge-2^32.
 """
 import json
 import os
@@ -66,7 +68,9 @@ def dense_pool(rng, w, cb, profile):
             pool.update([0, 7, 8])
     elif profile == 'top':                 # w == 32 only: ids of the top chunk (finding F2)
         top = (1 << 32) - C
-        pool.update([top, top + 1, top + 7, top + 8, (1 << 32) - 1, 4294967290, top - 1, 5])
+        pool.update([top, top + 1, top + 7, top + 8, (1 << 32) - 1, 4294967290])
+        if cb != 22:                       # (cb 22: one allocated chunk only, the model walks 4M bytes per chunk)
+            pool.update([top - 1, 5])
     lim = (1 << 20) if cb == 4 else (1 << w)
     pool = sorted(x for x in pool if 0 <= x < lim)
     rng.shuffle(pool)
@@ -501,11 +505,12 @@ def run(ctx):
     mult = 1 if quick else 10
     for (w, cb) in DENSE:
         if cb == 22:
-            plan = [('low', 1 * mult, 40, 1), ('high', 1 * mult if w == 64 else 0, 30, 1)]
+            # quick: uint32 is covered by the `top` script, uint64 by the script around 2^32
+            plan = [('low', 0 if quick else mult, 40, 1), ('high', 1 * mult if w == 64 else 0, 30, 1)]
         else:
             plan = [('low', 40 * mult, 60, 6), ('high', 2 * mult if cb == 8 else 0, 30, 2)]
         if w == 32 and cb in (22, 8):
-            plan.append(('top', 1 * mult, 25, 3))
+            plan.append(('top', 1 * mult, 25, 1 if cb == 22 else 3))
         for profile, n, nops, max_iter in plan:
             if w == 64 and cb == 4 and profile == 'high':
                 continue
@@ -545,16 +550,27 @@ def run(ctx):
         ctx.sample(' ; '.join(s.ops[:12]) + (' ; ...' if len(s.ops) > 12 else ''))
     total_ops = 0
     crashed = False
+    from concurrent.futures import ThreadPoolExecutor
+
+    def job(binary, ops, timeout):
+        try:
+            return run_bin(binary, ops, timeout=timeout)
+        except subprocess.TimeoutExpired:
+            return -9, [], 'timeout'
+
+    futures = {}
+    with ThreadPoolExecutor(max_workers=4) as ex:
+        for bkey, ss in per_bin.items():
+            all_ops = [o for s in ss for o in s.ops]
+            futures[bkey] = (ex.submit(job, bins[bkey], all_ops, 1800),
+                             ex.submit(job, model_bin, all_ops, 3000) if ctx.exe_build_ok else None)
     for bkey, ss in per_bin.items():
         all_ops = [o for s in ss for o in s.ops]
         total_ops += len(all_ops)
-        try:
-            rc, impl, se = run_bin(bins[bkey], all_ops, timeout=1800)
-        except subprocess.TimeoutExpired:
-            rc, impl, se = -9, [], 'timeout'
+        rc, impl, se = futures[bkey][0].result()
         model = None
-        if ctx.exe_build_ok:
-            rcm, model, sem = run_bin(model_bin, all_ops, timeout=3000)
+        if futures[bkey][1] is not None:
+            rcm, model, sem = futures[bkey][1].result()
         pos = 0
         for s in ss:
             n = len(s.ops)
@@ -598,6 +614,7 @@ def run(ctx):
 
     # ---- 4. monitors (the property on the implementation) ------------------------------------------------
     known_seen = {}
+    known_all = []
     unknown = []
     for s in scripts:
         for i, l in enumerate(s.impl):
@@ -629,15 +646,16 @@ def run(ctx):
                 k = classify_known(s, i, t)
                 if k:
                     known_seen.setdefault(k, (s, i, t))
+                    known_all.append((s, i, t))
                 else:
                     unknown.append((s, i, t))
     for k, (s, i, t) in known_seen.items():
         cut = s.ops[:i + 1]
         m = minimise(bins[s.bin], cut, t, budget_s=15)
         what = {KEY_F2: 'IdSetDense<uint32_t>: once the top chunk is allocated last() wraps to 0 and iteration delivers nothing '
-                        '(DESIGN.md F2): ',
+                        '(DESIGN.md F2, fixed by /repo 7c7de5b — regression): ',
                 KEY_F3: 'RelationsMapIndex built from 32-bit-only pairs: for_each(k) with k >= 2^32 narrows k to 32 bits and reports '
-                        'the entries of k mod 2^32 (DESIGN.md F3): '}[k]
+                        'the entries of k mod 2^32 (DESIGN.md F3, fixed by /repo 9f963df — regression): '}[k]
         ctx.violation(k, what + ' ; '.join(m), {'kind': 'counterexample', 'ops': m, 'binary': s.bin, 'monitor': t,
                                                 'replay': 'python3 tools/check.py C15 --replay <this file>'})
     done = set()
@@ -665,7 +683,7 @@ def run(ctx):
         dis = ctx.diff_streams('c15-' + s.kind.split(':')[0], s.ops, impl, s.model)
         if dis:
             ndiff += 1
-            has_mon = any(u[0] is s for u in unknown)
+            has_mon = any(u[0] is s for u in unknown) or any(v[0] is s for v in known_all)
             if not has_mon and ndiff <= 3:
                 i, op, a, b = dis[0]
                 ctx.violation('correspondence:%s:%s' % (s.kind, op[:100]),
